@@ -316,7 +316,7 @@ def helper_direct(R, rng):
 
 def plan(tier, seed):
     q = tier == "quick"
-    return [{"kind": "spi", "sub": i, "cases": 90 if q else 900, "budget_s": 100 if q else 1500} for i in range(16 if q else 32)]
+    return [{"kind": "spi", "sub": i, "cases": 90 if q else 2500, "budget_s": 100 if q else 600} for i in range(16 if q else 32)]
 
 
 def run_shard(spec, R):
